@@ -285,34 +285,39 @@ theorem setCandidates_sound (e : Env) (p : Pat) (k : Nat) (S : List Pred) (hS : 
         (fun s0 s1 h1 => own b hS s0 s1 h1) st st' hm
   · exact own p hS st st' hm
 
-/-- **The leading strings are sound** (left-to-right, case-sensitive): the text at the start of every
-    success begins with one of the strings of `prefixes maxLen maxCount p` (for any budget). -/
-theorem prefixes_sound (e : Env) (maxLen maxCount : Nat) (p : Pat) (st st' : St) (hm : st' ∈ m e p false st) :
-    ∃ l ∈ (prefixes maxLen maxCount p).1, l <+: e.text.drop st.pos := by
-  obtain ⟨l, hl, hp, _⟩ := prefixes_ok e maxLen maxCount p st st' hm
-  exact ⟨l, hl, hp⟩
+/-- **The leading strings are sound** (left-to-right): the text at the start of every success,
+    normalised rune by rune with `norm`, begins with one of the strings of
+    `prefixes norm maxLen maxCount p` (for any budget; `norm = id`: the text itself, the
+    case-sensitive reading). -/
+theorem prefixes_sound (e : Env) (norm : Nat → Nat) (maxLen maxCount : Nat) (p : Pat) (st st' : St)
+    (hm : st' ∈ m e p false st) :
+    ∃ l ∈ (prefixes norm maxLen maxCount p).1, l <+: (e.text.drop st.pos).map norm := by
+  obtain ⟨l, hl, hp, _⟩ := prefixes_ok e norm maxLen p maxCount st st' hm
+  exact ⟨l, hl, by simpa [ntext, List.map_drop] using hp⟩
 
-/-- **The prefix validator is sound**: if every string the over-approximation allows starts — up to the
-    comparison `R` the engine's search uses (equality for `LeadingStrings_LeftToRight`,
-    `t == x || toLower t == x` for the ordinal-ignore-case modes) — with a published string, then at
-    the start of every success some published string matches the text under `R`.  So a
-    `LeadingPrefixes` list (or a single `LeadingPrefix`) that passes `checkPrefixes` never makes the
+/-- **The prefix validator is sound**: let `R x t` be the comparison the engine's search applies to a
+    published rune `x` and a text rune `t` (equality for `LeadingStrings_LeftToRight`,
+    `t == x || toLower t == x` for the ordinal-ignore-case modes) and `norm` a normalisation that `R`
+    accepts (`R (norm t) t`: identity, resp. lower-casing).  If every string of a candidate list starts
+    with a published string (`checkPrefixes`), then at the start of every success some published string
+    matches the text under `R`.  So a `LeadingPrefixes` list that passes the check never makes the
     search skip a match; this is `findPrefixes`' obligation. -/
-theorem checkPrefixes_sound (e : Env) (maxLen maxCount : Nat) (p : Pat) (R : Nat → Nat → Bool)
-    (E : List (List Nat)) (L : List (List Nat)) (hL : L ∈ prefixCandidates maxLen maxCount p)
-    (hc : checkPrefixes R E L = true)
+theorem checkPrefixes_sound (e : Env) (norm : Nat → Nat) (maxLen maxCount : Nat) (p : Pat)
+    (R : Nat → Nat → Bool) (hR : ∀ t, R (norm t) t = true)
+    (E : List (List Nat)) (L : List (List Nat)) (hL : L ∈ prefixCandidates norm maxLen maxCount p)
+    (hc : checkPrefixes E L = true)
     (st st' : St) (hm : st' ∈ m e p false st) : ∃ x ∈ E, rPrefix R x (e.text.drop st.pos) = true := by
-  have own : ∀ (q : Pat), L = (prefixes maxLen maxCount q).1 → ∀ (s s' : St), s' ∈ m e q false s →
+  have own : ∀ (q : Pat), L = (prefixes norm maxLen maxCount q).1 → ∀ (s s' : St), s' ∈ m e q false s →
       ∃ x ∈ E, rPrefix R x (e.text.drop s.pos) = true := by
     intro q hq s s' hs
-    obtain ⟨l, hl, hp⟩ := prefixes_sound e maxLen maxCount q s s' hs
+    obtain ⟨l, hl, hp⟩ := prefixes_sound e norm maxLen maxCount q s s' hs
     rw [← hq] at hl
     unfold checkPrefixes at hc
     rw [List.all_eq_true] at hc
     have := hc l hl
     rw [List.any_eq_true] at this
     obtain ⟨x, hx, hr⟩ := this
-    exact ⟨x, hx, rPrefix_mono R x l _ hr hp⟩
+    exact ⟨x, hx, rPrefix_norm R norm hR x _ (rPrefix_mono _ x l _ hr hp)⟩
   unfold prefixCandidates at hL
   split at hL
   · rename_i b hb
@@ -351,32 +356,41 @@ theorem published_first_sound (e : Env) (p : Pat) (rtl : Bool) (S : List Pred) (
         have e1 : min i y.pos + (max i y.pos - min i y.pos) - 1 = i - 1 := by omega
         simpa [e1] using hr
 
-/-- **A published fixed-distance set that includes one candidate holds at every find result**
-    (left-to-right): the text has a character `k` positions after the match index and the published
-    test `E` accepts it.  `E` is what the runner evaluates for a `FixedDistanceSet` at `Distance = k`
-    (`Chars`/`Range` with `Negated`, else `Set.CharIn`), the single character of `FixedDistanceChar`, or
-    character `i` of a `FixedDistanceString` at `Distance + i`. -/
-theorem published_set_sound (e : Env) (p : Pat) (k : Nat) (S : List Pred) (hS : S ∈ setCandidates p k)
-    (E : Nat → Bool) (hsub : ∀ r, memPreds e S r = true → E r = true)
+/-- **A published fixed-distance set that includes the intersection of the candidates holds at every
+    find result** (left-to-right): if at least one over-approximation exists for offset `k` and the
+    published test `E` accepts every rune that ALL candidates accept, then the text has a character `k`
+    positions after the match index and `E` accepts it.  `E` is what the runner evaluates for a
+    `FixedDistanceSet` at `Distance = k` (`Chars`/`Range` with `Negated`, else `Set.CharIn`), the single
+    character of `FixedDistanceChar`, character `i` of a `FixedDistanceString` or of a `LeadingPrefix`
+    at `Distance + i`, or `FcPrefix` at 0.  (Including ONE candidate is the special case.) -/
+theorem published_set_sound (e : Env) (p : Pat) (k : Nat) (hne : setCandidates p k ≠ [])
+    (E : Nat → Bool) (hsub : ∀ r, (∀ S ∈ setCandidates p k, memPreds e S r = true) → E r = true)
     (start : Nat) (st : St) (hf : find e p false start = some st) :
     ∃ idx len, lastCap st.caps 0 = some (idx, len) ∧ ∃ r, e.text[idx + k]? = some r ∧ E r = true := by
   obtain ⟨i, _, hat⟩ := find_attempt e p false start st hf
   obtain ⟨y, hy, _, hcap⟩ := attempt_success e p false i st hat
   have h2 : i ≤ y.pos := by simpa [Fwd] using m_fwd e p false _ y hy
-  obtain ⟨r, hr, hmem⟩ := setCandidates_sound e p k S hS _ y hy
-  exact ⟨_, _, hcap, r, by simpa [Nat.min_eq_left h2] using hr, hsub r hmem⟩
+  obtain ⟨S0, hS0⟩ := List.exists_mem_of_ne_nil _ hne
+  obtain ⟨r, hr, _⟩ := setCandidates_sound e p k S0 hS0 _ y hy
+  refine ⟨_, _, hcap, r, by simpa [Nat.min_eq_left h2] using hr, hsub r ?_⟩
+  intro S hS
+  obtain ⟨r', hr', hmem⟩ := setCandidates_sound e p k S hS _ y hy
+  rw [hr] at hr'
+  simp at hr'; subst hr'
+  exact hmem
 
 /-- **A published prefix list that passes the validator holds at every find result** (left-to-right):
     some published string matches the text at the match index under the search's comparison `R`. -/
-theorem published_prefixes_sound (e : Env) (maxLen maxCount : Nat) (p : Pat) (R : Nat → Nat → Bool)
-    (E : List (List Nat)) (L : List (List Nat)) (hL : L ∈ prefixCandidates maxLen maxCount p)
-    (hc : checkPrefixes R E L = true)
+theorem published_prefixes_sound (e : Env) (norm : Nat → Nat) (maxLen maxCount : Nat) (p : Pat)
+    (R : Nat → Nat → Bool) (hR : ∀ t, R (norm t) t = true)
+    (E : List (List Nat)) (L : List (List Nat)) (hL : L ∈ prefixCandidates norm maxLen maxCount p)
+    (hc : checkPrefixes E L = true)
     (start : Nat) (st : St) (hf : find e p false start = some st) :
     ∃ idx len, lastCap st.caps 0 = some (idx, len) ∧ ∃ x ∈ E, rPrefix R x (e.text.drop idx) = true := by
   obtain ⟨i, _, hat⟩ := find_attempt e p false start st hf
   obtain ⟨y, hy, _, hcap⟩ := attempt_success e p false i st hat
   have h2 : i ≤ y.pos := by simpa [Fwd] using m_fwd e p false _ y hy
-  obtain ⟨x, hx, hr⟩ := checkPrefixes_sound e maxLen maxCount p R E L hL hc _ y hy
+  obtain ⟨x, hx, hr⟩ := checkPrefixes_sound e norm maxLen maxCount p R hR E L hL hc _ y hy
   exact ⟨_, _, hcap, x, hx, by simpa [Nat.min_eq_left h2] using hr⟩
 
 /-! ### non-vacuity: concrete instances -/
@@ -429,13 +443,13 @@ example : leadingPrefix utf8enc (.seq (.chr (.one 97 false))
 -- `^ab{1,3}(?:c|cd)$`: first character `a`; `b` at offset 1; `c` at offset... not fixed (b{1,3})
 example : firstSet demoPat false = some [.one 97 false] := by decide
 example : setAt demoPat 1 = some [.one 98 false] ∧ setAt demoPat 2 = none := by decide
-example : (prefixes 8 16 demoPat).1 = [[97, 98]] := by decide
+example : (prefixes id 8 16 demoPat).1 = [[97, 98]] := by decide
 example : demoEnd.pos ≠ demoStart.pos ∧ ∃ r, charAt demoEnv false 2 = some r ∧ memPreds demoEnv [.one 97 false] r = true :=
   firstSet_sound demoEnv demoPat false _ (by decide) demoStart demoEnd demo_success
 example : ∃ r, demoEnv.text[2 + 1]? = some r ∧ memPreds demoEnv [.one 98 false] r = true :=
   setAt_sound demoEnv demoPat 1 _ (by decide) demoStart demoEnd demo_success
-example : ∃ l ∈ [[97, 98]], l <+: demoEnv.text.drop 2 :=
-  prefixes_sound demoEnv 8 16 demoPat demoStart demoEnd demo_success
+example : ∃ l ∈ [[97, 98]], l <+: (demoEnv.text.drop 2).map id :=
+  prefixes_sound demoEnv id 8 16 demoPat demoStart demoEnd demo_success
 example : ∃ r, charAt demoEnv false 2 = some r ∧ (fun r => decide (97 ≤ r ∧ r ≤ 122)) r = true :=
   firstSet_superset_sound demoEnv demoPat false [.one 97 false] (by decide) (fun r => decide (97 ≤ r ∧ r ≤ 122))
     (by intro r h; simp [memPreds, Pred.test] at h; subst h; decide) demoStart demoEnd demo_success
@@ -470,7 +484,7 @@ example : setCandidates demoSets 1 =
 example : setCandidates demoSets 0 =
     [[.one 97 false, .one 98 false], [.one 97 false, .one 98 false],
      [.set (.base false [(97, 98)] []) false], [.set (.base false [(97, 98)] []) false]] := by decide
-example : prefixCandidates 8 16 demoSets = [[[97, 120], [97, 121], [98]], [[97, 120], [98, 120]]] := by decide
+example : prefixCandidates id 8 16 demoSets = [[[97, 120], [97, 121], [98]], [[97, 120], [98, 120]]] := by decide
 example : ∃ r, demoSetsEnv.text[1 + 1]? = some r ∧ memPreds demoSetsEnv [.one 120 false] r = true :=
   setCandidates_sound demoSetsEnv demoSets 1 _ (by decide) _ _ demoSets_success
 example : ∃ r, demoSetsEnv.text[1]? = some r ∧ memPreds demoSetsEnv [.one 97 false, .one 98 false] r = true :=
@@ -483,22 +497,31 @@ example : ∃ r, demoSetsEnv.text[1]? = some r ∧ memPreds demoSetsEnv [.one 97
       simp [memPreds, Pred.test, Cls.mem, inRanges, inNames] at hm ⊢
       omega)
     _ _ demoSets_success
--- the engine's multi-prefix list for this pattern would be {"ax","ay","b"}-like; here a published list
--- {"ax","bx"} (the lookahead's) and a published ordinal-ignore-case list {"a","b"} both pass
-example : checkPrefixes (fun x t => x == t) [[97, 120], [98, 120]] [[97, 120], [98, 120]] = true := by decide
+-- a published case-sensitive list {"ax","bx"} (the lookahead's) covers the lookahead's candidate list
+example : checkPrefixes [[97, 120], [98, 120]] [[97, 120], [98, 120]] = true := by decide
 example : ∃ x ∈ [[97, 120], [98, 120]], rPrefix (fun x t => x == t) x (demoSetsEnv.text.drop 1) = true :=
-  checkPrefixes_sound demoSetsEnv 8 16 demoSets (fun x t => x == t) _ [[97, 120], [98, 120]] (by decide) (by decide)
-    _ _ demoSets_success
+  checkPrefixes_sound demoSetsEnv id 8 16 demoSets (fun x t => x == t) (by intro t; simp) _ [[97, 120], [98, 120]]
+    (by decide) (by decide) _ _ demoSets_success
 example : find demoSetsEnv demoSets false 0 = some { pos := 4, caps := [(0, 1, 3)] } := by decide
 example : ∃ idx len, lastCap ({ pos := 4, caps := [(0, 1, 3)] } : St).caps 0 = some (idx, len) ∧
     ∃ r, demoSetsEnv.text[idx + 1]? = some r ∧ (fun r => decide (r ≠ 10)) r = true :=
-  published_set_sound demoSetsEnv demoSets 1 [.set (.base false [(120, 121)] []) false, .notone 10 false] (by decide)
-    (fun r => decide (r ≠ 10))
-    (by intro r h; simp [memPreds, Pred.test, Cls.mem, inRanges, inNames] at h ⊢; omega) 0 _ (by decide)
-example : ∃ idx len, lastCap ({ pos := 4, caps := [(0, 1, 3)] } : St).caps 0 = some (idx, len) ∧
-    ∃ x ∈ [[97], [98]], rPrefix (fun x t => t == x || t + 32 == x) x (demoSetsEnv.text.drop idx) = true :=
-  published_prefixes_sound demoSetsEnv 8 16 demoSets (fun x t => t == x || t + 32 == x) [[97], [98]]
-    [[97, 120], [97, 121], [98]] (by decide) (by decide) 0 _ (by decide)
+  published_set_sound demoSetsEnv demoSets 1 (by decide) (fun r => decide (r ≠ 10))
+    (by
+      intro r h
+      have := h [.one 120 false] (by decide)
+      simp [memPreds, Pred.test] at this
+      subst this; decide) 0 _ (by decide)
+/-- an upper-case text "zAXz" and the normalisation "ASCII lower-casing": the ordinal-ignore-case reading -/
+def demoLower (r : Nat) : Nat := if 65 ≤ r ∧ r ≤ 90 then r + 32 else r
+def demoCi : Pat := .seq (.chr (.set (.base false [(65, 65), (97, 97)] []) false)) (.chr (.set (.base false [(88, 88), (120, 120)] []) false))
+def demoCiEnv : Env := { text := [122, 65, 88, 122], textstart := 0, named := [], word := [], fold := [] }
+example : prefixCandidates demoLower 8 16 demoCi = [[[97, 120]]] := by decide
+example : prefixCandidates id 8 16 demoCi = [[[65, 88], [65, 120], [97, 88], [97, 120]]] := by decide
+example : find demoCiEnv demoCi false 0 = some { pos := 3, caps := [(0, 1, 2)] } := by decide
+example : ∃ idx len, lastCap ({ pos := 3, caps := [(0, 1, 2)] } : St).caps 0 = some (idx, len) ∧
+    ∃ x ∈ [[97, 120]], rPrefix (fun x t => t == x || demoLower t == x) x (demoCiEnv.text.drop idx) = true :=
+  published_prefixes_sound demoCiEnv demoLower 8 16 demoCi (fun x t => t == x || demoLower t == x)
+    (by intro t; simp) [[97, 120]] [[97, 120]] (by decide) (by decide) 0 _ (by decide)
 
 /-! ### the first-character defect D13 (fixed by 0ead94b + 0185758), documented
 
